@@ -43,6 +43,8 @@ Definition d_wparams (x : sexp) : option wparams :=
       omap (fun f => {| wp_uri := u; wp_inc := i; wp_pubdate := p; wp_now := n; wp_newver := v; wp_fname := f |}) (d_str f))))))
   | _ => None end.
 Definition run_write (cmd : str) (args : list sexp) : option sexp :=
-  if str_eqb cmd (lit "write_doc") then
+  if str_eqb cmd (lit "write_regular") then
+    match args with [p; w] => obind (d_parsed p) (fun p => omap (fun w => e_bool (write_regular p w)) (d_wparams w)) | _ => None end
+  else if str_eqb cmd (lit "write_doc") then
     match args with [p; w] => obind (d_parsed p) (fun p => omap (fun w => e_res e_doc (write_doc p w)) (d_wparams w)) | _ => None end
   else None.
